@@ -37,6 +37,7 @@ def params : Params where
   iso := iso
   fromIso := fromIso
   truncMs := id
+  isoOk := fun _ => true
   repair := some
   xhtml := false
   escLinked := some
@@ -61,7 +62,7 @@ theorem ofInt_zero (i x : Int) (h : some i = some x) : (x == 0) = decide (i = 0)
   rw [h']
   by_cases hx : x = 0 <;> simp [hx]
 
-theorem iso_rt : ∀ t : Fin 3, fromIso (iso t) = some (Sum.inr t) := by decide
+theorem iso_rt : ∀ t : Fin 3, true = true → fromIso (iso t) = some (Sum.inr t) := by decide
 theorem iso_shape : ∀ t : Fin 3, reSet (iso t) ≠ iso t ∨ reGet (iso t) = iso t := by decide
 theorem iso_xml : ∀ t : Fin 3, xmlOk (iso t) = true := by decide
 
@@ -75,6 +76,7 @@ theorem lawful : params.Lawful where
   iso_shape := iso_shape
   iso_xml := iso_xml
   trunc_idem := fun _ => rfl
+  trunc_ok := fun _ _ => rfl
   repair_nil := rfl
 
 /-- the same instance with a `repair` that is not idempotent: every non-empty fragment grows -/
@@ -90,6 +92,7 @@ theorem growing_lawful : growing.Lawful where
   iso_shape := iso_shape
   iso_xml := iso_xml
   trunc_idem := fun _ => rfl
+  trunc_ok := fun _ _ => rfl
   repair_nil := rfl
 
 end Capella.Pods.Toy
